@@ -651,7 +651,9 @@ func (self *LocalJobManager) Enqueue(shellCmd string, argv []string,
 				util.LogInfo("jobmngr", "%d goroutines", runtime.NumGoroutine())
 			}
 		}
+		util.VerifPoint("local:acquired", fqname)
 		err := executeLocal(cmd, stdoutPath, stderrPath, localpreflight, metadata)
+		util.VerifPoint("local:exited", fqname)
 		// CentOS < 5.5 workaround
 		if err != nil {
 			if strings.Contains(err.Error(), exitCodeString) {
@@ -681,6 +683,7 @@ func (self *LocalJobManager) Enqueue(shellCmd string, argv []string,
 			}
 		} else {
 			// Notify
+			util.VerifPoint("local:notify", fqname)
 			select {
 			case self.jobDone <- struct{}{}:
 			default:
